@@ -48,6 +48,7 @@ fn engine_by_name(n: &str) -> Option<Box<dyn Engine>> {
         "queue" => Some(Box::new(engines::queue::QueueEngine)),
         "net" => Some(Box::new(engines::net::Net)),
         "bcast" => Some(Box::new(engines::bcast::Bcast)),
+        "inj" => Some(Box::new(engines::inj::Inj)),
         "synccell" => Some(Box::new(engines::synccell::SyncCellEngine)),
         _ => None,
     }
